@@ -110,6 +110,12 @@ def edges_of(fn):
                     detail = strip_generics(t.get("raw") or callee).split("::")[-1]
                     if sp[0] == "index":
                         detail = "index:" + short_ty(recv_ty)
+                    if sp[0] == "unwrap":
+                        # name the operation whose result is unwrapped: ordinals then count per producer, so an unrelated
+                        # unwrap added or removed elsewhere in the function does not renumber this edge
+                        prod = _producer(fn, t["args"][0]) if t.get("args") else None
+                        if prod:
+                            detail = "%s<-%s" % (detail, prod)
                     e = (sp[0], detail)
         if e is None:
             continue
@@ -117,6 +123,32 @@ def edges_of(fn):
         s = t.get("s") or [0, 0, "", 0, 0, 0, "?", []]
         out.append(Edge(fn.path, e[0], e[1], counts[e], "%s:%d" % (s[6], s[3]), bi, t))
     return out
+
+
+def _producer(fn, operand, depth=3):
+    """Last path segment of the call that defined the (moved) operand, following plain moves/copies."""
+    pl = operand.get("mv", operand.get("cp"))
+    if pl is None:
+        return None
+    local = pl if isinstance(pl, int) else pl[0]
+    for _ in range(depth):
+        found = None
+        for b in fn.blocks:
+            t = b["t"]
+            if t["k"] == "call":
+                d = t["d"] if isinstance(t["d"], int) else t["d"][0]
+                if d == local and isinstance(t["d"], int):
+                    return strip_generics(t.get("raw") or t["f"]).split("::")[-1]
+            for st in b["st"]:
+                if st["k"] == "assign" and st["d"] == local and st["rv"]["k"] in ("use", "cast"):
+                    o = st["rv"]["ops"][0]
+                    p2 = o.get("mv", o.get("cp"))
+                    if p2 is not None:
+                        found = p2 if isinstance(p2, int) else p2[0]
+        if found is None:
+            return None
+        local = found
+    return None
 
 
 def short_ty(t):
